@@ -39,7 +39,7 @@ def load(ctx):
     return mod, it, env
 
 
-def make_interp(run, base_it, log, device=None):
+def make_interp(run, base_it, log, device=None, modular=False):
     eff = run.effects
     dom = run.dom
     counter = {'n': 0}
@@ -117,7 +117,7 @@ def make_interp(run, base_it, log, device=None):
                 eff.append(('status', out_flat[0], out_flat[4], len(run.pc)))
             return tuple(out)
         if qual == 'time.sleep':
-            eff.append(('sleep', args[0], len(run.pc)))
+            eff.append(('sleep', args[0], len(run.pc), None))
             return None
         if qual == 'argparse.ArgumentParser':
             ns = I.SObj(I.ClassVal('Namespace', [I.EXC['object']], {}), {'device_id': I.Sym('str', z3.Int('device_id')),
@@ -204,7 +204,24 @@ def make_interp(run, base_it, log, device=None):
 
     hooks = {'binop': binop, 'dict_pick': dict_pick, 'external': external, 'opaque_attr': opaque_attr, 'opaque_index': opaque_index, 'symstr_method': symstr_method,
              'int_of_str': int_of_str, 'len': b_len, 'range': b_range}
-    it = I.Interp(run, base_it.mods, hooks=hooks)
+    def get_status_contract(it, f, args, kw):
+        """callee contract of dfu_get_status, as discharged by dfu.dfu_get_status/sleeps-the-requested-poll-time-and-returns-status-state
+        (obligations_helpers): one GETSTATUS request of 6 bytes, then a sleep of bwPollTimeout / 1000, returns (bStatus, bState).
+        cli_main is checked against this contract, not against the body"""
+        if len(args) != 1 or kw:
+            raise I.Unsupported('dfu_get_status called with other arguments than (device)')
+        d = args[0]
+        if d is not dev:
+            raise I.Unsupported('dfu_get_status on another device object')
+        resp = ctrl_transfer(it, [0xa1, 3], {'data_or_wLength': 6, 'timeout': 1000})
+        out = external(it, 'struct.unpack', ['<BBBBBB', resp], {})
+        pt = it.binop(ast.Add, it.binop(ast.Add, it.binop(ast.Mult, out[3], 65536), it.binop(ast.Mult, out[2], 256)), out[1])
+        eff.append(('sleep', I.Ratio(pt, 1000), len(run.pc), out[0]))
+        return (out[0], out[4])
+    contracts = {}
+    if modular:
+        contracts['dfu_get_status'] = get_status_contract
+    it = I.Interp(run, base_it.mods, hooks=hooks, contracts=contracts)
     install_loop_rules(it, run, log, fresh_int)
     # sys.platform is a string
     return it, dev
@@ -403,12 +420,22 @@ def obligations_builders(ctx, base_it, env):
                                                                          'what': 'dfu_get_status does not wait bwPollTimeout ms or returns other fields'}))
 
 
+def _poll_bytes_of(num, status_t):
+    """num == resp[k+3] * 65536 + resp[k+2] * 256 + resp[k+1] for the response whose first byte is status_t (= resp_k)"""
+    try:
+        base = int(str(status_t).split('_')[-1])
+    except ValueError:
+        return False
+    r = [z3.Int('resp_%d' % (base + d)) for d in (1, 2, 3)]
+    return num == r[2] * 65536 + r[1] * 256 + r[0]
+
+
 def obligations_cli(ctx, base_it, env):
     ctx.under_contract('cli_main', 'dfu')
     log = []
 
     def body(run):
-        it, dev = make_interp(run, base_it, log)
+        it, dev = make_interp(run, base_it, log, modular=True)
         base_it.mods['dfu'].vars['sys'].attrs['platform'] = I.Sym('str', z3.Int('sys_platform'))
         return it.call(env.vars['cli_main'], [], {})
     paths = I.explore(body, I.IntDom)
@@ -438,6 +465,20 @@ def obligations_cli(ctx, base_it, env):
                 ctx.add(Obligation('dfu.cli_main/path%d/C19a-oversize-refused-before-any-request' % i, list(p.pc), z3.BoolVal(len(ctrl) == 0),
                                    'INT', func='dfu.cli_main', kind='effect', cover=False,
                                    meta={'replay': ('dfu', {'props': ['C19'], 'key_prefix': 'oversize'}), 'props': ['C19']}))
+        # every GETSTATUS response is followed, before the next request, by the sleep it asked for
+        evs = [e for e in p.effects if e[0] in ('ctrl', 'status', 'sleep')]
+        for j, e in enumerate(evs):
+            if e[0] != 'status':
+                continue
+            nxt = evs[j + 1] if j + 1 < len(evs) else None
+            slept = nxt is not None and nxt[0] == 'sleep' and isinstance(nxt[1], I.Ratio) and nxt[1].den == 1000 and I.is_sym(nxt[1].num) \
+                and _poll_bytes_of(nxt[1].num.t, e[1].t)
+            if slept is False and nxt is None and p.kind == 'raise':
+                continue        # the run ended (raised) inside the poll: nothing was issued afterwards
+            ctx.add(Obligation('dfu.cli_main/path%d/C18-poll%d-is-followed-by-the-sleep-it-requested' % (i, j), list(p.pc[:e[3]]),
+                               slept if not isinstance(slept, bool) else z3.BoolVal(slept), 'INT', func='dfu.cli_main', kind='effect', cover=False,
+                               meta={'replay': ('dfu', {'props': ['C18'], 'key_prefix': 'poll'}), 'props': ['C18'],
+                                     'what': 'a GETSTATUS response is not followed by a wait of its bwPollTimeout before the next request'}))
         # loop bodies
         for e in p.effects:
             if e[0] != 'body-end':
